@@ -32,8 +32,16 @@ fn drop_step_owned() {
     kani::assume(addr != usize::MAX); // MAP_FAILED
     set_bases(addr, 0);
     let via_new: bool = kani::any();
+    let with_file: bool = kani::any();
     let r = if via_new {
         MmapRegion::<()>::new(size)
+    } else if with_file {
+        // owned file mapping: same obligation, plus the descriptor is closed when the region goes away
+        use std::os::fd::FromRawFd;
+        unsafe { FILE_LEN = i64::MAX };
+        let start: u64 = kani::any();
+        kani::assume(start as u128 + size as u128 <= i64::MAX as u128);
+        MmapRegion::<()>::from_file(vm_memory::FileOffset::new(unsafe { std::fs::File::from_raw_fd(12) }, start), size)
     } else {
         let prot: i32 = kani::any();
         let flags: i32 = kani::any();
@@ -46,6 +54,7 @@ fn drop_step_owned() {
             assert!(reg.owned() && reg.as_ptr() as usize == addr && reg.size() == size);
             drop(reg);
             assert!(ghost() == (1, 1, 0, 0)); // one munmap, of exactly (addr, size): otherwise BAD_MUNMAP
+            assert!(unsafe { N_CLOSE } == if !via_new && with_file { 1 } else { 0 });
         }
         Err(e) => {
             leak(e);
@@ -53,7 +62,8 @@ fn drop_step_owned() {
         }
     }
     kani::cover!(size == 0);
-    kani::cover!(size == usize::MAX && addr == 0);
+    kani::cover!(via_new && size == usize::MAX && addr == 0);
+    kani::cover!(!via_new && with_file && size > 0);
 }
 
 /// a region wrapped around an externally provided mapping is never unmapped by the library
